@@ -481,5 +481,6 @@ pub fn property() -> Property {
         ],
         families,
         prelude: None,
+        epilogue: None,
     }
 }
